@@ -143,6 +143,8 @@ struct Env<'a> {
     next_version: &'a AtomicU64,
     events: &'a Mutex<Vec<String>>,
     spare_reader: &'a Mutex<Option<(redb::ReadTransaction, u64)>>,
+    /// readers of the Read calls, kept alive: re-read after the schedule and two further commits
+    kept: &'a Mutex<Vec<(redb::ReadTransaction, u64, String)>>,
 }
 
 fn ev(env: &Env, s: String) {
@@ -204,6 +206,7 @@ fn do_call(env: &Env, call: Call) -> String {
                             if v < floor {
                                 return format!("VIOLATION stale-read version {v} although commit {floor} had completed before begin_read was called");
                             }
+                            env.kept.lock().unwrap().push((rt, v, thread_name()));
                             format!("ok v={v}")
                         }
                         (Err(e), _) | (_, Err(e)) => {
@@ -316,9 +319,10 @@ fn run_schedule(cfg: &Cfg, first: Call, second: Call, park: Option<(&str, usize)
     let events_arc = ctl.events.clone();
     let events: &Mutex<Vec<String>> = &events_arc;
     let spare: Mutex<Option<(redb::ReadTransaction, u64)>> = Mutex::new(None);
+    let kept: Mutex<Vec<(redb::ReadTransaction, u64, String)>> = Mutex::new(vec![]);
     // a committed base state and a live reader pinned to it, then a second commit
     {
-        let env = Env { db: &db, completed: &completed, next_version: &next_version, events, spare_reader: &spare };
+        let env = Env { db: &db, completed: &completed, next_version: &next_version, events, spare_reader: &spare, kept: &kept };
         let _ = do_call(&env, Call::WriteImm);
         let rt = db.begin_read().unwrap();
         *spare.lock().unwrap() = Some((rt, 1));
@@ -331,8 +335,8 @@ fn run_schedule(cfg: &Cfg, first: Call, second: Call, park: Option<(&str, usize)
     let c2 = ctl.clone();
     redb::verif::verif_set_pause_hook(Some(Arc::new(move |p| c2.hook(p))));
     let (r1, r2, second_blocked) = std::thread::scope(|s| {
-        let env1 = Env { db: &db, completed: &completed, next_version: &next_version, events, spare_reader: &spare };
-        let env2 = Env { db: &db, completed: &completed, next_version: &next_version, events, spare_reader: &spare };
+        let env1 = Env { db: &db, completed: &completed, next_version: &next_version, events, spare_reader: &spare, kept: &kept };
+        let env2 = Env { db: &db, completed: &completed, next_version: &next_version, events, spare_reader: &spare, kept: &kept };
         let done1 = Arc::new(std::sync::atomic::AtomicBool::new(false));
         let d1 = done1.clone();
         let h1 = std::thread::Builder::new().name("T1".into()).spawn_scoped(s, move || {
@@ -363,11 +367,40 @@ fn run_schedule(cfg: &Cfg, first: Call, second: Call, park: Option<(&str, usize)
         let r2 = h2.join().unwrap_or_else(|_| "VIOLATION second thread died".into());
         (r1, r2, second_blocked)
     });
+    let desc = format!("first={first:?} second={second:?} park={}", park.map_or("none".to_string(), |(p, n)| format!("{p}#{n}")));
+    // the readers of the schedule stay frozen while later transactions reuse whatever was freed:
+    // two follow-up commits from this thread (not part of the event stream), then every reader
+    // kept by a Read call is read again and dropped on a thread carrying its caller's name, so
+    // that the drop is the last event of that call
+    if !kept.lock().unwrap().is_empty() {
+        let scratch: Mutex<Vec<String>> = Mutex::new(vec![]);
+        let env = Env { db: &db, completed: &completed, next_version: &next_version, events: &scratch, spare_reader: &spare, kept: &kept };
+        let r = std::panic::catch_unwind(std::panic::AssertUnwindSafe(|| {
+            let a = do_call(&env, Call::WriteNone);
+            let b = do_call(&env, Call::WriteImm);
+            (a, b)
+        }));
+        match r {
+            Ok((a, b)) if !a.starts_with("VIOLATION") && !b.starts_with("VIOLATION") => {}
+            other => out.oracle_fail(format!("schedule|{desc}: follow-up commits after the schedule failed: {other:?}")),
+        }
+        let readers: Vec<_> = kept.lock().unwrap().drain(..).collect();
+        for (rt, expect, owner) in readers {
+            let r = std::panic::catch_unwind(std::panic::AssertUnwindSafe(|| read_snapshot(&rt)));
+            match r {
+                Ok(Ok((v, None))) if v == expect => {}
+                other => out.oracle_fail(format!("schedule|{desc}: a reader of the schedule that saw version {expect} shows {other:?} after two later commits")),
+            }
+            out.count("kept_readers_reread");
+            std::thread::scope(|s| {
+                let _ = std::thread::Builder::new().name(owner).spawn_scoped(s, move || drop(rt)).unwrap().join();
+            });
+        }
+    }
     redb::verif::verif_set_pause_hook(None);
     let evs = std::mem::take(&mut *events.lock().unwrap());
     let log = std::mem::take(&mut ctl.st.lock().unwrap().log);
     let points = std::mem::take(&mut ctl.st.lock().unwrap().points_of_first);
-    let desc = format!("first={first:?} second={second:?} park={}", park.map_or("none".to_string(), |(p, n)| format!("{p}#{n}")));
     out.line(&format!("sch begin {desc}"));
     for e in &evs {
         out.line(&format!("sch ev {e}"));
@@ -380,23 +413,33 @@ fn run_schedule(cfg: &Cfg, first: Call, second: Call, park: Option<(&str, usize)
         }
     }
     // final state: a fresh reader sees the last completed version, and the snapshot accounting holds
-    let fin = db.begin_read().map_err(|e| format!("{e:?}")).and_then(|rt| read_snapshot(&rt));
-    match fin {
-        Ok((v, None)) => {
-            let c = completed.load(Ordering::SeqCst);
-            if v != c {
-                out.oracle_fail(format!("schedule|{desc}: after both calls the database shows version {v} but the last completed commit is {c}"));
+    let tail = std::panic::catch_unwind(std::panic::AssertUnwindSafe(|| {
+        let mut fails: Vec<String> = vec![];
+        let fin = db.begin_read().map_err(|e| format!("{e:?}")).and_then(|rt| read_snapshot(&rt));
+        match fin {
+            Ok((v, None)) => {
+                let c = completed.load(Ordering::SeqCst);
+                if v != c {
+                    fails.push(format!("schedule|{desc}: after both calls the database shows version {v} but the last completed commit is {c}"));
+                }
+            }
+            other => fails.push(format!("schedule|{desc}: final read failed: {other:?}")),
+        }
+        if let Some((rt, expect)) = spare.lock().unwrap().take() {
+            match read_snapshot(&rt) {
+                Ok((v, None)) if v == expect => {}
+                other => fails.push(format!("schedule|{desc}: the reader pinned at version {expect} shows {other:?} at the end")),
             }
         }
-        other => out.oracle_fail(format!("schedule|{desc}: final read failed: {other:?}")),
+        fails
+    }));
+    match tail {
+        Ok(fails) => fails.into_iter().for_each(|f| out.oracle_fail(f)),
+        Err(_) => out.oracle_fail(format!("schedule|{desc}: panic while reading the final state")),
     }
-    if let Some((rt, expect)) = spare.lock().unwrap().take() {
-        match read_snapshot(&rt) {
-            Ok((v, None)) if v == expect => {}
-            other => out.oracle_fail(format!("schedule|{desc}: the reader pinned at version {expect} shows {other:?} at the end")),
-        }
+    if std::panic::catch_unwind(std::panic::AssertUnwindSafe(move || drop(db))).is_err() {
+        out.oracle_fail(format!("schedule|{desc}: panic while dropping the Database"));
     }
-    drop(db);
     for x in backend.mon.contract_violations.lock().unwrap().iter() {
         out.oracle_fail(format!("backend-contract|{desc}: {x}"));
     }
